@@ -195,10 +195,14 @@ Lemma step_eval_e cx ln en e s : inv s (eval_e (S n) cx ln en e s).
 Proof.
   destruct e; cbn [eval_e]; prims; inv_tac.
   (* table constructor: the inner fixpoint over the items *)
-  match goal with |- inv ?s0 (?G items ?i ?s0) => generalize i; generalize s0 end.
-  induction items as [|it items IHits]; intros s1 i.
+  match goal with |- inv ?s0 (?G items ?i ?s0) =>
+    cut (forall (sx : state) (zx : Z), inv sx (G items zx sx)); [intros Hc; apply Hc|] end.
+  induction items as [|it items IHits]; intros sy zy.
   - fix_step. inv_tac.
-  - destruct it; [destruct items| |]; fix_step; prims; inv_tac.
+  - revert IHits.
+    match goal with |- (forall (sx : state) (zx : Z), inv sx (?G items zx sx)) -> _ =>
+      intros IHits; destruct it; fix_step; revert IHits; generalize (G items); intros rec IHrec; prims end;
+    inv_tac.
 Qed.
 
 Lemma step_eval_multi cx ln en e s : inv s (eval_multi (S n) cx ln en e s).
@@ -251,5 +255,28 @@ Proof. cbn [genfor_loop]; prims; inv_tac. Qed.
 Lemma step_tostring fr v s : inv s (tostring_v (S n) fr v s).
 Proof. cbn [tostring_v]; prims; inv_tac. Qed.
 
+Lemma step_builtin fr b args s : inv s (builtin_call (S n) fr b args s).
+Proof.
+  destruct b; cbn [builtin_call]; prims; inv_tac.
+  (* math.max / math.min: inner fixpoint over the remaining arguments *)
+  all: match goal with |- inv ?s0 (?G ?l ?acc ?s0) =>
+    cut (forall (lx : list value) (sx : state) (ax : float), inv sx (G lx ax sx)); [intros Hc; apply Hc|] end.
+  all: intros lx; induction lx as [|x lx IHlx]; intros sx ax; fix_step; [inv_tac|destruct x; inv_tac].
+Qed.
+
+Lemma all_inv_step : all_inv (S n).
+Proof.
+  unfold all_inv. repeat split; intros.
+  - apply step_eval_e. - apply step_eval_multi. - apply step_index. - apply step_setindex.
+  - apply step_binop. - apply step_eq. - apply step_order. - apply step_lt. - apply step_le.
+  - apply step_unop. - apply step_call. - apply step_block. - apply step_exec. - apply step_while.
+  - apply step_repeat. - apply step_numfor. - apply step_genfor. - apply step_tostring. - apply step_builtin.
+Qed.
+
 End Step.
+
+Theorem all_inv_all : forall n, all_inv n.
+Proof. induction n as [|n IH]; [apply all_inv_0|apply all_inv_step; exact IH]. Qed.
+
 End Inv.
+
